@@ -198,8 +198,11 @@ func checkConfiguredAsGiven(p *Prog, r *Report, rule, pkg, typ, option, what str
 			if u, isU := v.(*ssa.UnOp); isU {
 				v = u.X
 			}
-			_, isFV := v.(*ssa.FreeVar)
+			fv, isFV := v.(*ssa.FreeVar)
 			ok, why = isFV, "an option closure stores something else than the option's argument"
+			if isFV && !freeVarReadOnly(fv, 0) {
+				ok, why = false, "the option closure changes its argument before storing it"
+			}
 		default:
 			obj := allocOf(fn, T)
 			_, _, base, okf := fieldOf(st.Addr)
